@@ -401,7 +401,7 @@ func Gen(prop, tier string, seed, run uint64) Plan {
 	}
 	if (prop == "C06" || prop == "C09" || prop == "C11" || prop == "C10") && r.IntN(3) == 0 {
 		// a reference chain that ends in a sub-query reference: X <- b (plain
-		// reference) <- a (sub-query over b); X changes through marks, edits and
+		// reference) <- a (sub-query over b); named so that generated references only point from later to earlier names (oracles.go rank); X changes through marks, edits and
 		// converter events, i.e. invalidations that reach a only by inheritance
 		x := []string{"mark/m", "generated/g", "service/s"}[r.IntN(3)]
 		xdef := fmt.Sprintf("id:%d", r.IntN(nStreams+1))
@@ -410,8 +410,8 @@ func Gen(prop, tier string, seed, run uint64) Plan {
 		}
 		chain := []Op{
 			{C: CMut, K: "AddTag", Name: x, Color: "#abcdef", Def: xdef},
-			{C: CMut, K: "AddTag", Name: "tag/b", Color: "#abcdef", Def: refName(x) + []string{"", " protocol:tcp", " cbytes:1:"}[r.IntN(3)]},
-			{C: CMut, K: "AddTag", Name: "tag/a", Color: "#abcdef", Def: "@o:tag:b " + []string{"sport:@o:sport@", "chost:@o:chost@", "shost:@o:shost@ sport:@o:sport@"}[r.IntN(3)]},
+			{C: CMut, K: "AddTag", Name: "tag/a", Color: "#abcdef", Def: refName(x) + []string{"", " protocol:tcp", " cbytes:1:"}[r.IntN(3)]},
+			{C: CMut, K: "AddTag", Name: "tag/b", Color: "#abcdef", Def: "@o:tag:a " + []string{"sport:@o:sport@", "chost:@o:chost@", "shost:@o:shost@ sport:@o:sport@"}[r.IntN(3)]},
 		}
 		at := r.IntN(1 + len(mutOps)/3)
 		mutOps = append(mutOps[:at], append(chain, mutOps[at:]...)...)
